@@ -494,3 +494,252 @@ Proof.
   - intros n. unfold abs_ext. destruct (xget n (exts s)) as [x|] eqn:E; auto.
     rewrite (Hx n x E). reflexivity.
 Qed.
+
+(* ================================================================ *)
+(* 4. the residue is invisible to the slow merge decoder               *)
+(* ================================================================ *)
+Definition norm (c : cell) : cell := match c with CSeq [] => CZero | _ => c end.
+Definition xnorm (o : option xcell) : option xcell :=
+  match o with Some (XVal true []) => None | _ => o end.
+
+Record sim (s1 s2 : state) : Prop := mkSim {
+  sim_cells : forall n, norm (cells s1 n) = norm (cells s2 n);
+  sim_oneofs : forall g, oneofs s1 g = oneofs s2 g;
+  sim_pres : pres s1 = pres s2;
+  sim_lazy1 : lazy s1 = None;
+  sim_lazy2 : lazy s2 = None;
+  sim_exts : forall n, xnorm (xget n (exts s1)) = xnorm (xget n (exts s2));
+  sim_unk : unk s1 = unk s2
+}.
+
+Lemma zeroishb_norm cf c : zeroishb cf c = true -> norm c = CZero.
+Proof. destruct c as [| | |[|]]; cbn; try discriminate; auto. Qed.
+
+Lemma residue_sim cf s1 s2 : residue cf s1 -> residue cf s2 -> sim s1 s2.
+Proof.
+  intros [Hc1 Ho1 Hp1 Hx1 Hu1 Hl1 Hz1] [Hc2 Ho2 Hp2 Hx2 Hu2 Hl2 Hz2].
+  constructor; try congruence.
+  - intros n. rewrite (zeroishb_norm cf _ (Hc1 n)), (zeroishb_norm cf _ (Hc2 n)). reflexivity.
+  - intros n.
+    assert (H : forall s, (forall n x, xget n (exts s) = Some x -> x = XVal true []) -> xnorm (xget n (exts s)) = None).
+    { intros s H. destruct (xget n (exts s)) as [x|] eqn:E; auto. rewrite (H n x E). reflexivity. }
+    rewrite (H s1 Hx1), (H s2 Hx2). reflexivity.
+Qed.
+
+Lemma lazy_lookup_none s n : lazy s = None -> lazy_lookup s n = Some [].
+Proof. unfold lazy_lookup. intros ->. reflexivity. Qed.
+
+Lemma sim_abs_eq cf s1 s2 : sim s1 s2 -> abs_eq cf s1 s2.
+Proof.
+  intros [Hc Ho Hp Hl1 Hl2 Hx Hu]. repeat split; auto.
+  - intros f. unfold abs_field, present, get.
+    rewrite !lazy_lookup_none by assumption.
+    rewrite Hp, (Ho (fgrp f)). specialize (Hc (fnum f)).
+    destruct (fcls f); auto;
+      destruct (cells s1 (fnum f)) as [| [|] ? | | [|]];
+      destruct (cells s2 (fnum f)) as [| [|] ? | | [|]];
+      cbn in Hc; try discriminate; try (inversion Hc; subst); auto;
+      destruct (flav cf); auto.
+  - intros n. unfold abs_ext. specialize (Hx n).
+    destruct (xget n (exts s1)) as [[[|] [|]]|];
+      destruct (xget n (exts s2)) as [[[|] [|]]|];
+      cbn in Hx; try discriminate; try (inversion Hx; subst); auto.
+Qed.
+
+Lemma sim_put f c1 c2 s1 s2 : norm c1 = norm c2 -> sim s1 s2 -> sim (put f c1 s1) (put f c2 s2).
+Proof.
+  intros Hn [Hc Ho Hp Hl1 Hl2 Hx Hu]. unfold put. destruct (is_oo (fcls f)); [constructor; auto|].
+  constructor; cbn; auto. intros n. destruct (N.eqb n (fnum f)); auto.
+Qed.
+
+Lemma sim_pset cf f s1 s2 : sim s1 s2 -> sim (pset cf f s1) (pset cf f s2).
+Proof.
+  intros [Hc Ho Hp Hl1 Hl2 Hx Hu]. unfold pset.
+  destruct (flav cf); try (constructor; auto; fail).
+  destruct (has_bit (fcls f)); constructor; cbn; auto. rewrite Hp. reflexivity.
+Qed.
+
+Lemma sim_oput f c s1 s2 : sim s1 s2 -> sim (oput f c s1) (oput f c s2).
+Proof.
+  intros [Hc Ho Hp Hl1 Hl2 Hx Hu]. unfold oput. destruct (is_oo (fcls f)); constructor; cbn; auto.
+  intros g. destruct (N.eqb g (fgrp f)); auto.
+Qed.
+
+Lemma sim_with_unk s1 s2 u : sim s1 s2 -> sim (with_unk s1 (unk s1 ++ u)) (with_unk s2 (unk s2 ++ u)).
+Proof. intros [Hc Ho Hp Hl1 Hl2 Hx Hu]. constructor; cbn; auto. rewrite Hu. reflexivity. Qed.
+
+Lemma merge_msg_norm c1 c2 body : norm c1 = norm c2 -> norm (merge_msg c1 body) = norm (merge_msg c2 body).
+Proof.
+  destruct c1 as [| [|] ? | | [|]]; destruct c2 as [| [|] ? | | [|]]; cbn; intros H;
+    try discriminate; try (inversion H; subst); reflexivity.
+Qed.
+
+Lemma app_cell_norm c1 c2 l : norm c1 = norm c2 -> norm (app_cell c1 l) = norm (app_cell c2 l).
+Proof.
+  destruct c1 as [| [|] ? | | [|]]; destruct c2 as [| [|] ? | | [|]]; cbn; intros H;
+    try discriminate; try (inversion H; subst); reflexivity.
+Qed.
+
+(* an ML field: force, then merge *)
+Definition ml_merge (f : fld) (body : list N) (s : state) : state :=
+  let s1 := force_or_keep f s in put f (merge_msg (get f s1) body) s1.
+
+Lemma force_none f s : lazy s = None ->
+  force_or_keep f s = match fcls f, get f s with
+                      | ML, CZero => if present f s then put f (CMsg []) s else s
+                      | _, _ => s
+                      end.
+Proof.
+  intros Hl. unfold force_or_keep, force. rewrite (lazy_lookup_none s (fnum f) Hl).
+  destruct (fcls f); auto. destruct (get f s); auto. destruct (present f s); auto.
+Qed.
+
+Lemma sim_ml_merge f body s1 s2 : sim s1 s2 -> sim (ml_merge f body s1) (ml_merge f body s2).
+Proof.
+  intros S. pose proof S as [Hc Ho Hp Hl1 Hl2 Hx Hu]. unfold ml_merge. cbv zeta.
+  rewrite !force_none by assumption. unfold present. rewrite Hp.
+  destruct (fcls f) eqn:Ec; try (apply sim_put; [apply merge_msg_norm; apply Hc|exact S]).
+  pose proof (Hc (fnum f)) as Hf. unfold get.
+  assert (Hput : forall c s, get f (put f c s) = c).
+  { intros c s. unfold get, put. rewrite Ec. cbn. rewrite N.eqb_refl. reflexivity. }
+  assert (Hdbl : forall c c0 c' t1 t2, norm c = norm c' -> sim t1 t2 -> sim (put f c (put f c0 t1)) (put f c' t2)).
+  { intros c c0 c' t1 t2 Hn [Hc' Ho' Hp' Hl1' Hl2' Hx' Hu']. unfold put. rewrite Ec. cbn.
+    constructor; cbn; auto. intros n. destruct (N.eqb n (fnum f)); auto. }
+  assert (Hdbr : forall c c0 c' t1 t2, norm c = norm c' -> sim t1 t2 -> sim (put f c t1) (put f c' (put f c0 t2))).
+  { intros c c0 c' t1 t2 Hn [Hc' Ho' Hp' Hl1' Hl2' Hx' Hu']. unfold put. rewrite Ec. cbn.
+    constructor; cbn; auto. intros n. destruct (N.eqb n (fnum f)); auto. }
+  destruct (cells s1 (fnum f)) as [| [|] ? | | [|]] eqn:E1;
+    destruct (cells s2 (fnum f)) as [| [|] ? | | [|]] eqn:E2;
+    cbn in Hf; try discriminate; try (inversion Hf; subst);
+    destruct (memN (fnum f) (pres s2));
+    fold (get f (put f (CMsg []) s1)); fold (get f (put f (CMsg []) s2));
+    rewrite ?Hput; unfold get; rewrite ?E1, ?E2; cbn [merge_msg app];
+    first [ apply sim_put; [reflexivity|exact S]
+          | apply Hdbl; [reflexivity|exact S]
+          | apply Hdbr; [reflexivity|exact S]
+          | (apply sim_put; [reflexivity|apply sim_put; [reflexivity|exact S]]) ].
+Qed.
+
+Lemma sim_merge_field cf f nz body v s1 s2 :
+  sim s1 s2 -> sim (merge_field cf f nz body v s1) (merge_field cf f nz body v s2).
+Proof.
+  intros S. pose proof S as [Hc Ho Hp Hl1 Hl2 Hx Hu]. unfold merge_field.
+  destruct (fcls f) eqn:Ec.
+  - apply sim_pset, sim_put; auto.
+  - apply sim_put; auto.
+  - apply sim_put; auto. apply merge_msg_norm, Hc.
+  - cbv zeta. apply sim_pset. apply (sim_ml_merge f body s1 s2 S).
+  - apply sim_put; auto. apply app_cell_norm, Hc.
+  - apply sim_put; auto. apply app_cell_norm, Hc.
+  - apply sim_put; auto. apply app_cell_norm, Hc.
+  - rewrite (Ho (fgrp f)).
+    destruct body as [|b0 body']; destruct (oneofs s2 (fgrp f)) as [[k [| | |]]|];
+      try destruct (N.eqb k (fnum f)); apply sim_oput; exact S.
+Qed.
+
+Lemma xget_xdel k n e : xget k (xdel n e) = if N.eqb k n then None else xget k e.
+Proof.
+  unfold xdel. induction e as [|[a x] r IH]; cbn.
+  - destruct (N.eqb k n); reflexivity.
+  - destruct (N.eqb_spec n a); cbn.
+    + subst. rewrite IH. destruct (N.eqb_spec k a); reflexivity.
+    + destruct (N.eqb_spec k a).
+      * subst. destruct (N.eqb_spec a n); [congruence|reflexivity].
+      * exact IH.
+Qed.
+
+Lemma xget_xput k n x e : xget k (xput n x e) = if N.eqb k n then Some x else xget k e.
+Proof.
+  unfold xput. cbn. destruct (N.eqb_spec k n); auto. rewrite xget_xdel.
+  destruct (N.eqb_spec k n); [congruence|reflexivity].
+Qed.
+
+Lemma sim_merge_ext n isl l s1 s2 : sim s1 s2 -> sim (merge_ext n isl l s1) (merge_ext n isl l s2).
+Proof.
+  intros [Hc Ho Hp Hl1 Hl2 Hx Hu]. unfold merge_ext.
+  assert (Hn := Hx n).
+  assert (G : forall x1 x2, xnorm (Some x1) = xnorm (Some x2) ->
+              sim (with_exts s1 (xput n x1 (exts s1))) (with_exts s2 (xput n x2 (exts s2)))).
+  { intros x1 x2 Hxx. constructor; try assumption.
+    intros k. unfold with_exts. cbn [exts]. rewrite !xget_xput.
+    destruct (N.eqb k n); auto. }
+  destruct (xget n (exts s1)) as [[[|] [|]]|];
+    destruct (xget n (exts s2)) as [[[|] [|]]|];
+    cbn in Hn; try discriminate; try (inversion Hn; subst);
+    destruct isl; apply G; reflexivity.
+Qed.
+
+Lemma sim_wire_item cf s1 s2 it :
+  sim s1 s2 -> sim (wire_item cf false s1 it) (wire_item cf false s2 it).
+Proof.
+  intros S. destruct it as [f nz cnt v|n isl cnt v|raw]; cbn [wire_item].
+  - destruct (fcls f) eqn:Ec; try (apply sim_merge_field; exact S).
+    apply sim_put; auto.
+  - apply sim_merge_ext; exact S.
+  - apply sim_with_unk; exact S.
+Qed.
+
+Lemma sim_bad_nested cf ff s1 s2 :
+  fast cf = false -> sim s1 s2 -> sim (bad_nested cf false ff s1) (bad_nested cf false ff s2).
+Proof.
+  intros F S. unfold bad_nested. rewrite F.
+  destruct (fcls ff) eqn:Ec; auto.
+  - apply sim_put; auto. apply merge_msg_norm. apply (sim_cells _ _ S).
+  - cbv zeta. apply sim_pset. apply (sim_ml_merge ff [] s1 s2 S).
+Qed.
+
+Lemma sim_fold cf : forall l s1 s2, sim s1 s2 ->
+  sim (fold_left (wire_item cf false) l s1) (fold_left (wire_item cf false) l s2).
+Proof.
+  induction l as [|it r IH]; intros s1 s2 S; cbn; auto. apply IH. apply sim_wire_item; exact S.
+Qed.
+
+Lemma sim_um_slow cf items fl s1 s2 :
+  fast cf = false -> sim s1 s2 -> sim (um cf items fl s1) (um cf items fl s2).
+Proof.
+  intros F S. unfold um. rewrite F. cbn [andb]. cbv zeta.
+  destruct fl as [|k g [ff|]].
+  - apply sim_fold; exact S.
+  - apply sim_bad_nested; auto. apply sim_fold; exact S.
+  - apply sim_fold; exact S.
+Qed.
+
+(* ================================================================ *)
+(* 5. the property                                                      *)
+(* ================================================================ *)
+Theorem reset_empty cf schema ops :
+  Forall (op_ok schema) ops ->
+  let s := run cf schema ops init in
+  abs_empty cf (reset cf schema s) /\
+  (fast cf = true -> reset cf schema s = init) /\
+  (fast cf = false -> residue cf (reset cf schema s)).
+Proof.
+  intros Hok s.
+  assert (W : wf cf schema s) by (apply wf_run; auto using wf_init).
+  destruct (fast cf) eqn:F.
+  - rewrite (reset_fast_init cf schema s F). split; [|split]; try discriminate; auto.
+    apply residue_abs_empty, residue_init.
+  - assert (R : residue cf (reset cf schema s)).
+    { unfold reset. rewrite F. apply reset_refl_residue; auto. }
+    split; [|split]; auto; try discriminate. apply residue_abs_empty; exact R.
+Qed.
+
+Theorem unmarshal_fast_same_state cf schema items fl s :
+  fast cf = true -> unmarshal cf schema items fl s = unmarshal cf schema items fl init.
+Proof. intros F. unfold unmarshal. rewrite !reset_fast_init by exact F. reflexivity. Qed.
+
+Lemma abs_eq_refl cf s : abs_eq cf s s.
+Proof. repeat split; reflexivity. Qed.
+
+Theorem unmarshal_equals_fresh cf schema ops items fl :
+  Forall (op_ok schema) ops ->
+  abs_eq cf (unmarshal cf schema items fl (run cf schema ops init)) (unmarshal cf schema items fl init).
+Proof.
+  intros Hok.
+  destruct (fast cf) eqn:F.
+  - rewrite (unmarshal_fast_same_state cf schema items fl _ F). apply abs_eq_refl.
+  - apply sim_abs_eq. unfold unmarshal. apply sim_um_slow; auto.
+    unfold reset. rewrite F.
+    apply residue_sim with (cf := cf); apply reset_refl_residue; auto using wf_init.
+    apply wf_run; auto using wf_init.
+Qed.
